@@ -43,6 +43,26 @@ PATH_NAMES = {"btc": PATHS[0], "tbtc": PATHS[1], "trsk": PATHS[2], "tmst": PATHS
               "rsk": PATHS[4], "mst": PATHS[5]}
 
 
+VALUE_PROFILES = ["seeded", "lead00", "lead0n", "zero", "ff"]
+
+
+def shape(value, profile):
+    """boundary shapes of a printed field value (bytes, or (int, width) for numbers):
+    first byte 00, first nibble 0, all zero, all ff"""
+    if isinstance(value, tuple):
+        n, width = value
+        return int.from_bytes(shape(n.to_bytes(width, "big"), profile), "big")
+    if profile == "lead00":
+        return b"\x00" + value[1:]
+    if profile == "lead0n":
+        return bytes([(value[0] & 0x0f) or 0x07]) + value[1:]
+    if profile == "zero":
+        return bytes(len(value))
+    if profile == "ff":
+        return b"\xff" * len(value)
+    return value
+
+
 def offsets(header_len, fields):
     out, o = {}, header_len
     for name, n in fields:
